@@ -3119,7 +3119,7 @@ EXPLANATION = ("Static: every hard-wired or default floating-point format in the
                "rule cannot lower is an analysis error, never a violation.")
 MANIFEST = {
     "text": "Partial claim decided statically: (R1) width of every floating-point spec over the whole double range, card-grid arithmetic of wttabled1/wtgrids "
-            "templates, leftover-pair range, last-line head, ENDT; (R2) non-empty-vector contract of writer.vecwrite at its call sites; (R3) reader strides vs "
+            "templates, leftover-pair range, last-line head, ENDT; (R2) non-empty-vector contract of writer.vecwrite at its call sites, and (when vecwrite buffers its lines) the buffer written only as far as it was filled; (R3) reader strides vs "
             "writer layout (TABLED1, GRID incl. the card order of the vectors, DMIG column cards field by field, keys searched where they were collected), DMIG symmetry test vs reader mirror, entry "
             "orientation, rows written per column, non-zero terms never skipped, type 3/4 iff complex data, D exponent; (R4) wtnasints line wrapping (field "
             "count = value count, capacity, consecutive slices), the head written by its callers (wtcsuper, wtextrn, ...) fills the fields before `start`, and the THRU cursor of wtset / wtspoints / wtxset1 (through whatever helper holds the loop). Known findings (default/hard-wired formats narrower "
